@@ -330,10 +330,22 @@ pub fn strict_pair(a: &MP, b: &MP, ops: &[geo_booleanop::boolean::Operation]) ->
 /// digests of the pinned-corpus cases on which the unchanged tree is known to return a wrong region or to panic with
 /// a recorded signature (corpus/known/adv_c01_digests.json); loaded once
 pub fn adv_known_digests() -> &'static std::collections::HashSet<u64> {
+    adv_known_digests_for("C01")
+}
+
+/// the same list for the pinned corpus judged by another property's oracle (C02: structure, C05: consistency)
+pub fn adv_known_digests_for(prop: &str) -> &'static std::collections::HashSet<u64> {
     use std::sync::OnceLock;
-    static SET: OnceLock<std::collections::HashSet<u64>> = OnceLock::new();
-    SET.get_or_init(|| {
-        let path = format!("{}/corpus/known/adv_c01_digests.json", crate::runner::verif_root());
+    static C01: OnceLock<std::collections::HashSet<u64>> = OnceLock::new();
+    static C02: OnceLock<std::collections::HashSet<u64>> = OnceLock::new();
+    static C05: OnceLock<std::collections::HashSet<u64>> = OnceLock::new();
+    let (cell, file) = match prop {
+        "C02" => (&C02, "adv_c02_digests.json"),
+        "C05" => (&C05, "adv_c05_digests.json"),
+        _ => (&C01, "adv_c01_digests.json"),
+    };
+    cell.get_or_init(|| {
+        let path = format!("{}/corpus/known/{}", crate::runner::verif_root(), file);
         let mut set = std::collections::HashSet::new();
         if let Ok(s) = std::fs::read_to_string(&path) {
             if let Ok(v) = serde_json::from_str::<Value>(&s) {
@@ -359,6 +371,39 @@ pub fn adv_lattice_strategy() -> BoxedStrategy<Adv> {
 /// C01's oracle on one pinned-corpus case. `collect`: report every failing case (used to build the known list);
 /// otherwise cases whose digest is listed are counted and not reported.
 pub fn eval_adv_c01(d: &Adv, want_sample: bool, collect: Option<&std::sync::Mutex<Vec<u64>>>) -> Eval {
+    eval_adv_prop(d, "C01", want_sample, collect)
+}
+
+/// the pinned corpus judged by the oracle of C01 (membership), C02 (structure of the result) or C05 (mutual consistency)
+pub fn eval_adv_prop(d: &Adv, prop: &'static str, want_sample: bool, collect: Option<&std::sync::Mutex<Vec<u64>>>) -> Eval {
+    if prop == "C01" {
+        return eval_adv_c01_inner(d, want_sample, collect);
+    }
+    let (a, b) = match adv_operands(d) {
+        Some(x) => x,
+        None => return Eval::skipped(crate::gen::Reject::Margin),
+    };
+    let case = Case { family: "adversarial-pinned", a, b, c: MultiPolygon(vec![]), exact: false, selfx: false, bits: 0 };
+    let digest = ser::case_digest(&case);
+    let mut obs = Obs::default();
+    obs.nontrivial = !boxes_disjoint(&mp_edges(&case.a), &mp_edges(&case.b));
+    let mut scratch = Obs::default();
+    let r = if prop == "C02" { crate::props::result::c02(&case, &mut scratch, Prec::F64) } else { crate::props::result::c05(&case, &mut scratch, Prec::F64) };
+    let mut result = Ok(());
+    if let Err(f) = r {
+        if let Some(c) = collect {
+            c.lock().unwrap().push(digest);
+        } else if adv_known_digests_for(prop).contains(&digest) {
+            obs.count("known_adversarial_corpus_failures", 1);
+            obs.class("known-finding-K5");
+        } else {
+            result = Err(Failure::new(f.clause, format!("pinned adversarial corpus: {}", f.detail)));
+        }
+    }
+    Eval { obs, result, digest, family: "adversarial-pinned", sample: if want_sample { Some(ser::case_sample(&case)) } else { None }, skip: None }
+}
+
+fn eval_adv_c01_inner(d: &Adv, want_sample: bool, collect: Option<&std::sync::Mutex<Vec<u64>>>) -> Eval {
     let (a, b) = match adv_operands(d) {
         Some(x) => x,
         None => return Eval::skipped(crate::gen::Reject::Margin),
